@@ -4,6 +4,7 @@ import (
 	"bytes"
 	"crypto/sha256"
 	"encoding/hex"
+	"errors"
 
 	"github.com/btcsuite/btcd/btcutil"
 	"github.com/btcsuite/btcd/btcutil/psbt"
@@ -91,18 +92,6 @@ func (b *BitcoinOnChain) ValidateTx(swapParams *swap.OpeningParams, openingTxHex
 		return false, err
 	}
 
-	var scriptOut *wire.TxOut
-
-	for _, out := range msgTx.TxOut {
-		if out.Value == int64(swapParams.Amount) {
-			scriptOut = out
-			break
-		}
-	}
-	if scriptOut == nil {
-		return false, nil
-	}
-
 	redeemScript, err := ParamsToTxScript(swapParams, BitcoinCsv)
 	if err != nil {
 		return false, err
@@ -117,10 +106,14 @@ func (b *BitcoinOnChain) ValidateTx(swapParams *swap.OpeningParams, openingTxHex
 		return false, err
 	}
 
-	if bytes.Compare(wantScript, scriptOut.PkScript) != 0 {
-		return false, err
+	// The swap output is identified by value and script together: another
+	// output (e.g. the change) may carry the same value.
+	for _, out := range msgTx.TxOut {
+		if out.Value == int64(swapParams.Amount) && bytes.Equal(wantScript, out.PkScript) {
+			return true, nil
+		}
 	}
-	return true, nil
+	return false, nil
 }
 
 func (b *BitcoinOnChain) TxIdFromHex(txHex string) (string, error) {
@@ -151,29 +144,20 @@ func (b *BitcoinOnChain) GetVoutAndVerify(txHex string, params *swap.OpeningPara
 		return false, 0, err
 	}
 
-	var scriptOut *wire.TxOut
-	var vout uint32
-	for i, out := range msgTx.TxOut {
-		if out.Value == int64(params.Amount) {
-			scriptOut = out
-			vout = uint32(i)
-			break
-		}
-	}
-	if scriptOut == nil {
-		return false, 0, err
-	}
-
 	wantScript, err := b.GetOutputScript(params)
 	if err != nil {
 		return false, 0, err
 	}
 
-	if bytes.Compare(wantScript, scriptOut.PkScript) != 0 {
-		return false, 0, err
+	// The swap output is identified by value and script together: another
+	// output (e.g. the change) may carry the same value. Callers use the
+	// returned index directly, so a missing output is an error.
+	for i, out := range msgTx.TxOut {
+		if out.Value == int64(params.Amount) && bytes.Equal(wantScript, out.PkScript) {
+			return true, uint32(i), nil
+		}
 	}
-
-	return true, vout, nil
+	return false, 0, errors.New("transaction has no output that pays the swap amount to the swap script")
 }
 
 func (b *BitcoinOnChain) GetOutputScript(params *swap.OpeningParams) ([]byte, error) {
